@@ -425,7 +425,7 @@ var c03ValueArgs = []string{"0", "1", "2", "-1", "\"a\"", "null", "\"g\"", ".", 
 func init() {
 	run.Register(&run.Prop{
 		ID: "C03", Level: "exploration", MinNontrivial: 5000,
-		Rule:        "builtin: a case is (builtin name/arity taken at run time from `builtins` plus the user-reachable operators, input, arguments) with values from a ~110-value type universe (every type, empty/singleton/nested containers, negative/fractional/huge numbers, NaN/inf, multi-byte and invalid UTF-8 strings, number-like strings) — all (input, argument) pairs per arity-1 builtin in thorough, sampled otherwise — or filter arguments from a pool for jq-defined builtins with filter parameters. Each case is run by the real library and checked four ways: (1) against the reference (native reference functions written from the manual, or the reference interpreter evaluating builtin.jq's text for jq-defined builtins; the reference declines where jq versions differ), (2) representation independence: the same tuple with ints as *big.Int / integer-literal json.Number and floats <= 2^53 as fraction/exponent json.Number (and back) must give the same canonical outcome, (3) an error must be catchable by try/catch at the right position, never a panic, and outputs must consist of the supported Go types; sync: every precompiled definition of builtin.go is reflect.DeepEqual to the definition parsed from builtin.jq and vice versa. Non-trivial = distinct tuples that produced an output. Also (kind c03.fromjson): 100 texts that are / are not exactly one JSON value, in three calling forms: fromjson returns the value or a catchable error, never the value of a prefix. dates: gmtime, todate and strftime of a number of seconds (either sign, with and without a fraction, years 1..9999, ints and doubles) against the broken-down time computed from the day number by era arithmetic (not package time): an instant before 1970 lies in 1969 whatever its fraction; gmtime | mktime gives back the whole second or the instant.",
+		Rule:        "builtin: a case is (builtin name/arity taken at run time from `builtins` plus the user-reachable operators, input, arguments) with values from a ~110-value type universe (every type, empty/singleton/nested containers, negative/fractional/huge numbers, NaN/inf, multi-byte and invalid UTF-8 strings, number-like strings) — all (input, argument) pairs per arity-1 builtin in thorough, sampled otherwise — or filter arguments from a pool for jq-defined builtins with filter parameters. Each case is run by the real library and checked four ways: (1) against the reference (native reference functions written from the manual, or the reference interpreter evaluating builtin.jq's text for jq-defined builtins; the reference declines where jq versions differ), (2) representation independence: the same tuple with ints as *big.Int / integer-literal json.Number and floats <= 2^53 as fraction/exponent json.Number (and back) must give the same canonical outcome, (3) an error must be catchable by try/catch at the right position, never a panic, and outputs must consist of the supported Go types; sync: every precompiled definition of builtin.go is reflect.DeepEqual to the definition parsed from builtin.jq and vice versa. Non-trivial = distinct tuples that produced an output. Also (kind c03.fromjson): 100 texts that are / are not exactly one JSON value, in three calling forms: fromjson returns the value or a catchable error, never the value of a prefix. rangeedge: range($from; $upto; $by) across the edges of the machine integers (7 edges x 12 steps of either sign x 7 offsets x 4 representations) against the arithmetic progression computed with math/big. dates: gmtime, todate and strftime of a number of seconds (either sign, with and without a fraction, years 1..9999, ints and doubles) against the broken-down time computed from the day number by era arithmetic (not package time): an instant before 1970 lies in 1969 whatever its fraction; gmtime | mktime gives back the whole second or the instant.",
 		Assumptions: []string{"the native reference functions (harness/internal/model/natives*.go, values.go) are a faithful reading of the manual; where the manual is silent and jq versions differ they decline and only checks (2)-(3) apply", "clock and time-zone builtins are excluded from (1)-(2)", "a number literal that reaches a text-producing builtin untouched keeps its spelling (C10), so outputs differing only in digit spelling are not a representation dependence"},
 		Body: func(c *run.Ctx) {
 			r := c.Rand("c03")
@@ -452,6 +452,9 @@ func init() {
 			}
 			for _, t := range c03DateCases(c) {
 				kC03Dates.Do(c, t)
+			}
+			for _, t := range c03RangeCases(c) {
+				kC03Range.Do(c, t)
 			}
 			for _, t := range c16NotOneJSON {
 				kC03FromJSON.Do(c, c03FromJSON{Text: t})
